@@ -6,14 +6,20 @@
 //   ld  <m|s> <pol> <shape> <hexdoc>           m = from std::string, s = from std::istream; pol = mismatch,overflow in T|S
 //   ldp <m|s> <pol> <shape> <prior> <hexdoc>   the same into a target that already holds <prior> (the tree syntax the driver
 //                                              prints, read along the shape: a std::map as {key=value;..}, a class as {s<name>=value;..})
-//   shape := n | T | F | i<kind>:+0 | f0 | d0 | s- | b- | [shape] | {s<hexname>=shape;...} | <kshape=shape> | (N|shape) | v | ^shape;..$
+//   shape := n | T | F | i<kind>:+0 | f0 | d0 | s- | b- | [shape] | {s<hexname>=shape;...} | <kshape=shape> | (N|shape) | v | ^shape;..$ | ?shape | *shape | &shape | %shape;shape$ | <m|kshape=shape> | #kshape | @kshape
 //            (the tree syntax of drv_mpsave.cpp; scalars give the kind, a vector holds exactly one element: the
 //             shape of its elements; <k=v> is std::map<K, v> with K = std::string (k = s-) or an integer type
 //             (k = i<kind>:+0), loaded by the library's own SerializeMapImpl in MapLoadMode::Clean; <o|k=v> and <u|k=v> load it
 //             in OnlyExistKeys / UpdateKeys (SerializeMapImpl(ar, map, mode), as user code passes a mode); the target is
 //             value-initialised from the shape); (N|e) is std::array<e, N> (the library's SerializeFixedSizeArray),
 //             v is std::vector<bool> (the library's own overload), ^s1;..;sn$ is std::tuple<s1,..,sn> with n <= 4 (the library's
-//             SerializeArray(std::tuple) on a tuple of references to the component nodes).  A loaded map prints as {key=value;...} in the
+//             SerializeArray(std::tuple) on a tuple of references to the component nodes); ?e / *e / &e are std::optional /
+//             std::unique_ptr / std::shared_ptr of a node of shape e (the library's own Serialize overloads; the wrapped node is
+//             created by the library through a default constructor that copies the prototype of that position), printed n when empty;
+//             %a;b$ is std::pair<a, b> (the library's SerializeObject(std::pair) on a pair of references), printed as the class
+//             {s6b6579=..;s76616c7565=..} ("key", "value") it is serialized as; <m|k=v> is std::multimap<K, v> (the library's
+//             SerializeMultiMapImpl on a real std::multimap), printed as the array of its pairs [{s6b6579=key;s76616c7565=value};..];
+//             #k / @k are std::set<K> / std::multiset<K> (the library's SerializeSetImpl), printed as the array of the elements.  A loaded map prints as {key=value;...} in the
 //             map's order, a fixed-size array and a vector<bool> as [..;..]
 //   answer: OK <tree> | ERR <cat>
 #include "common.h"
@@ -21,6 +27,8 @@
 #include <cstring>
 #include <map>
 #include <memory>
+#include <optional>
+#include <set>
 #include <tuple>
 #include <sstream>
 #include <vector>
@@ -28,6 +36,10 @@
 #include "bitserializer/msgpack_archive.h"
 #include "bitserializer/types/std/vector.h"
 #include "bitserializer/types/std/tuple.h"
+#include "bitserializer/types/std/optional.h"
+#include "bitserializer/types/std/memory.h"
+#include "bitserializer/types/std/pair.h"
+#include "bitserializer/serialization_detail/generic_set.h"
 #include "bitserializer/serialization_detail/generic_map.h"
 
 namespace dyn {
@@ -81,7 +93,77 @@ struct Node {
 	Fix fix;
 	std::vector<bool> vb;
 	std::vector<Node> comps;         // tuple components
+	char wrap = '?';                 // ? optional, * unique_ptr, & shared_ptr
+	std::shared_ptr<Node> optproto;  // the shape of the wrapped value
+	std::vector<Node> opt;           // empty, or the wrapped value
 };
+
+// what std::optional / unique_ptr / shared_ptr wrap: a node whose DEFAULT constructor (the library writes TValue() /
+// make_unique<TValue>()) copies the prototype of the wrapper being loaded
+inline std::vector<const Node*> g_protos;
+struct ProtoGuard { explicit ProtoGuard(const Node* p) { g_protos.push_back(p); } ~ProtoGuard() { g_protos.pop_back(); } };
+struct OptNode {
+	Node n;
+	OptNode() : n(*g_protos.back()) {}
+	explicit OptNode(const Node& x) : n(x) {}
+};
+
+std::string print_node(const Node& n);
+std::string print_key(const std::string& k);
+std::string print_key_int(int kk, int64_t i, uint64_t u);
+std::string parse_key_str(const std::string& keyText);
+int64_t parse_key_int(const std::string& keyText);
+
+template <class F> auto with_key_type(int kk, F&& f) {
+	switch (kk) {
+	case 0: return f(uint8_t{}); case 1: return f(uint16_t{}); case 2: return f(uint32_t{}); case 3: return f(uint64_t{});
+	case 4: return f(int8_t{}); case 5: return f(int16_t{}); case 6: return f(int32_t{}); case 7: return f(int64_t{});
+	default: return f(std::string{});
+	}
+}
+template <class K> std::string print_any_key(int kk, const K& k) {
+	if constexpr (std::is_same_v<K, std::string>) return print_key(k);
+	else return print_key_int(kk, static_cast<int64_t>(k), static_cast<uint64_t>(k));
+}
+template <class K> K parse_any_key(const std::string& t) {
+	if constexpr (std::is_same_v<K, std::string>) return parse_key_str(t);
+	else return static_cast<K>(parse_key_int(t));
+}
+
+// std::multimap<K, node>: the mapped nodes are created by the library (value_type pair;) from the prototype on top of the stack
+template <class K>
+struct MMapOf : MapBase {
+	int kk = -1;
+	std::shared_ptr<Node> proto;
+	std::multimap<K, OptNode> items;
+	[[nodiscard]] size_t size() const { return items.size(); }
+	[[nodiscard]] std::unique_ptr<MapBase> clone() const override { return std::make_unique<MMapOf<K>>(*this); }
+	[[nodiscard]] Node make_value() const override { return *proto; }
+	void put_prior(const std::string& keyText, const Node& value) override { items.emplace(parse_any_key<K>(keyText), OptNode(value)); }
+	[[nodiscard]] std::string print() const override {
+		std::string r = "["; bool first = true;
+		for (auto& kv : items) { if (!first) r += ";"; first = false; r += "{s6b6579=" + print_any_key<K>(kk, kv.first) + ";s76616c7565=" + print_node(kv.second.n) + "}"; }
+		return r + "]";
+	}
+};
+template <class TArchive, class K> void SerializeArray(TArchive& ar, MMapOf<K>& m) { BitSerializer::Detail::SerializeMultiMapImpl(ar, m.items); }
+
+// std::set<K> / std::multiset<K>
+template <class K, bool Multi>
+struct SetOf : MapBase {
+	int kk = -1;
+	std::conditional_t<Multi, std::multiset<K>, std::set<K>> items;
+	[[nodiscard]] size_t size() const { return items.size(); }
+	[[nodiscard]] std::unique_ptr<MapBase> clone() const override { return std::make_unique<SetOf<K, Multi>>(*this); }
+	[[nodiscard]] Node make_value() const override { return Node(); }
+	void put_prior(const std::string& keyText, const Node&) override { items.insert(parse_any_key<K>(keyText)); }
+	[[nodiscard]] std::string print() const override {
+		std::string r = "["; bool first = true;
+		for (auto& k : items) { if (!first) r += ";"; first = false; r += print_any_key<K>(kk, k); }
+		return r + "]";
+	}
+};
+template <class TArchive, class K, bool Multi> void SerializeArray(TArchive& ar, SetOf<K, Multi>& m) { BitSerializer::Detail::SerializeSetImpl(ar, m.items); }
 
 std::string print_node(const Node& n);
 std::string print_key(const std::string& k);
@@ -159,6 +241,30 @@ bool with_target(Node& v, F&& f) {
 	case '[': return f(v.arr);
 	case '(': return f(v.fix);
 	case 'v': return f(v.vb);
+	case '%': { std::pair<Node&, Node&> pr(v.comps[0], v.comps[1]); return f(pr); }
+	case 'M': {
+		ProtoGuard guard(v.optproto.get());
+		return with_key_type(v.map.kk, [&](auto tag) { using K = decltype(tag); return f(static_cast<MMapOf<K>&>(*v.map.p)); });
+	}
+	case 'S': return with_key_type(v.map.kk, [&](auto tag) { using K = decltype(tag); return f(static_cast<SetOf<K, false>&>(*v.map.p)); });
+	case 'U': return with_key_type(v.map.kk, [&](auto tag) { using K = decltype(tag); return f(static_cast<SetOf<K, true>&>(*v.map.p)); });
+	case '?': {
+		ProtoGuard guard(v.optproto.get());
+		switch (v.wrap) {
+		case '?': {
+			std::optional<OptNode> o; if (!v.opt.empty()) o.emplace(v.opt[0]);
+			bool r = f(o); v.opt.clear(); if (o) v.opt.push_back(o->n); return r;
+		}
+		case '*': {
+			std::unique_ptr<OptNode> o; if (!v.opt.empty()) o = std::make_unique<OptNode>(v.opt[0]);
+			bool r = f(o); v.opt.clear(); if (o) v.opt.push_back(o->n); return r;
+		}
+		default: {
+			std::shared_ptr<OptNode> o; if (!v.opt.empty()) o = std::make_shared<OptNode>(v.opt[0]);
+			bool r = f(o); v.opt.clear(); if (o) v.opt.push_back(o->n); return r;
+		}
+		}
+	}
 	case '^':
 		switch (v.comps.size()) {
 		case 0: { std::tuple<> t; return f(t); }
@@ -189,6 +295,9 @@ template <class TArchive> bool Serialize(TArchive& ar, Node& v) {
 template <class TArchive, class TKey> bool Serialize(TArchive& ar, TKey&& key, Node& v) {
 	return with_target(v, [&](auto& x) { return BitSerializer::Serialize(ar, key, x); });
 }
+
+template <class TArchive> bool Serialize(TArchive& ar, OptNode& v) { return Serialize(ar, v.n); }
+template <class TArchive, class TKey> bool Serialize(TArchive& ar, TKey&& key, OptNode& v) { return Serialize(ar, std::forward<TKey>(key), v.n); }
 
 template <class TArchive> void ObjView::Serialize(TArchive& ar) {
 	for (auto& kv : n.obj) ar << BitSerializer::KeyValue(kv.first, kv.second);
@@ -225,6 +334,32 @@ static Node parse(const std::string& t, size_t& p) {
 		break;
 	}
 	case 'v': n.kind = 'v'; break;
+	case '#': case '@': {
+		n.kind = c == '#' ? 'S' : 'U';
+		Node k = parse(t, p);
+		if (k.kind != 's' && k.kind != 'i') throw std::runtime_error("set elements are strings or integers");
+		n.map.kk = k.kind == 's' ? -1 : k.ik;
+		const bool multi = c == '@';
+		dyn::with_key_type(n.map.kk, [&](auto tag) {
+			using K = decltype(tag);
+			if (multi) { auto m = std::make_unique<dyn::SetOf<K, true>>(); m->kk = n.map.kk; n.map.p = std::move(m); }
+			else { auto m = std::make_unique<dyn::SetOf<K, false>>(); m->kk = n.map.kk; n.map.p = std::move(m); }
+			return true;
+		});
+		break;
+	}
+	case '?': case '*': case '&': {
+		n.kind = '?'; n.wrap = c;
+		n.optproto = std::make_shared<Node>(parse(t, p));
+		if (n.optproto->kind == 'n' || n.optproto->kind == '?') throw std::runtime_error("a wrapper holds a shape that is never nil");
+		break;
+	}
+	case '%': {
+		n.kind = '%';
+		n.comps.push_back(parse(t, p)); if (t.at(p) != ';') throw std::runtime_error("bad pair shape"); ++p;
+		n.comps.push_back(parse(t, p)); if (t.at(p) != '$') throw std::runtime_error("bad pair shape"); ++p;
+		break;
+	}
 	case '^':
 		n.kind = '^';
 		if (t.at(p) == '$') { ++p; break; }
@@ -246,6 +381,17 @@ static Node parse(const std::string& t, size_t& p) {
 	case '<': {
 		n.kind = '<';
 		BitSerializer::MapLoadMode mode = BitSerializer::MapLoadMode::Clean;
+		if (p + 1 < t.size() && t[p] == 'm' && t[p + 1] == '|') {
+			p += 2; n.kind = 'M';
+			Node k = parse(t, p);
+			if (k.kind != 's' && k.kind != 'i') throw std::runtime_error("multimap keys are strings or integers");
+			if (t.at(p) != '=') throw std::runtime_error("bad multimap shape"); ++p;
+			auto proto = std::make_shared<Node>(parse(t, p));
+			if (t.at(p) != '>') throw std::runtime_error("bad multimap shape"); ++p;
+			n.map.kk = k.kind == 's' ? -1 : k.ik; n.optproto = proto;
+			dyn::with_key_type(n.map.kk, [&](auto tag) { using K = decltype(tag); auto m = std::make_unique<dyn::MMapOf<K>>(); m->kk = n.map.kk; m->proto = proto; n.map.p = std::move(m); return true; });
+			break;
+		}
 		if (p + 1 < t.size() && t[p + 1] == '|' && (t[p] == 'c' || t[p] == 'o' || t[p] == 'u')) {
 			mode = t[p] == 'o' ? BitSerializer::MapLoadMode::OnlyExistKeys : t[p] == 'u' ? BitSerializer::MapLoadMode::UpdateKeys : BitSerializer::MapLoadMode::Clean;
 			p += 2;
@@ -316,7 +462,9 @@ static std::string print(const Node& n) {
 		for (size_t i = 0; i < n.arr.items.size(); ++i) { if (i) r += ";"; r += print_elem(n.arr.items[i], *n.arr.proto); }
 		return r + "]";
 	}
-	case '<': return n.map.p->print();
+	case '<': case 'M': case 'S': case 'U': return n.map.p->print();
+	case '?': return n.opt.empty() ? std::string("n") : print(n.opt[0]);
+	case '%': return "{s6b6579=" + print(n.comps[0]) + ";s76616c7565=" + print(n.comps[1]) + "}";
 	case '(': {
 		std::string r = "[";
 		for (size_t i = 0; i < n.fix.items.size(); ++i) { if (i) r += ";"; r += print(n.fix.items[i]); }
@@ -390,10 +538,36 @@ static void fill_prior(Node& n, const std::string& t, size_t& p) {
 		for (size_t i = 0; i < n.comps.size(); ++i) { if (i) expect(';'); fill_prior(n.comps[i], t, p); }
 		expect(']'); break;
 	}
+	case '%': {
+		expect('{'); token(); expect('='); fill_prior(n.comps[0], t, p); expect(';'); token(); expect('='); fill_prior(n.comps[1], t, p); expect('}');
+		break;
+	}
+	case '?': {
+		n.opt.clear();
+		if (p < t.size() && t[p] == 'n') { ++p; break; }
+		Node e = *n.optproto; fill_prior(e, t, p); n.opt.push_back(std::move(e));
+		break;
+	}
 	case 'v': {
 		expect('['); n.vb.clear();
 		if (t.at(p) == ']') { ++p; break; }
 		for (;;) { std::string k = token(); n.vb.push_back(k == "T"); if (t.at(p) == ';') { ++p; continue; } expect(']'); break; }
+		break;
+	}
+	case 'M': {
+		expect('[');
+		if (t.at(p) == ']') { ++p; break; }
+		for (;;) {
+			expect('{'); token(); expect('='); std::string k = token(); expect(';'); token(); expect('=');
+			Node e = n.map.p->make_value(); fill_prior(e, t, p); n.map.p->put_prior(k, e); expect('}');
+			if (t.at(p) == ';') { ++p; continue; } expect(']'); break;
+		}
+		break;
+	}
+	case 'S': case 'U': {
+		expect('[');
+		if (t.at(p) == ']') { ++p; break; }
+		for (;;) { std::string k = token(); n.map.p->put_prior(k, Node()); if (t.at(p) == ';') { ++p; continue; } expect(']'); break; }
 		break;
 	}
 	case '<': {
